@@ -37,6 +37,10 @@ def check(ctx):
     ctx.rule("C16-D", "generic code calls TextDecorator methods on the user's decorator type only")
     for rid, fn in (("C16-A", rule_a), ("C16-B", rule_b), ("C16-C", rule_c), ("C16-D", rule_d)):
         ctx.guard(rid, fn)
+    from .. import widths as _w
+    ctx.rule("C16-E", "size estimates (which measure the decorator's prefixes) are computed only while rendering, with the "
+             "rendering configuration's decorator")
+    ctx.guard("C16-E", _w.rule_estimates_only_at_render, "C16-E")
 
 
 def is_prefix_source(a):
